@@ -350,7 +350,9 @@ func (k *keeper) doAccountSettle(ctx sdk.Context, id types.AccountID) (types.Acc
 	heightDelta := sdk.NewInt(ctx.BlockHeight() - account.SettledAt)
 
 	if heightDelta.IsZero() {
-		return account, nil, false, nil
+		// already settled at this height: nothing accrues, but callers (AccountClose)
+		// still need the open payments
+		return account, k.accountOpenPayments(ctx, id), false, nil
 	}
 
 	account.SettledAt = ctx.BlockHeight()
